@@ -65,8 +65,8 @@ def _array_pair(ctx, ty):
     agg = codec.OkAggregate(d, pd)
     e = prog.fn(enc_key(ty))
     pe = Prov(e)
-    rc = codec.returned_collection(e, pe, "Array")
-    els = codec.vec_elements(e, pe, *rc) if rc else None
+    rc = codec.returned_operand(e, pe, "Array")
+    els = codec.array_elements(e, pe, *rc) if rc else None
     if agg.problem or els is None:
         ctx.cannot("R-1", "pair:%s" % ty, "cannot extract the codec tables of %s" % ty, where=d.span)
         return
@@ -93,7 +93,7 @@ def _array_pair(ctx, ty):
             problems.append("`%s`: optional on %s only" % (field, "decode" if opt_dec else "encode"))
         elif opt_enc:
             want = ["nonempty:%s" % field] if kind.startswith("array<") else ["some:%s" % field]
-            if guard != want:
+            if guard != codec.canon_guard(want):
                 problems.append("`%s`: decoder's default (empty/None) does not match the encoder's omission guard %s" % (field, guard))
     missing = sorted(set(dec) - {f for _, f, _, _ in enc})
     if missing:
@@ -204,7 +204,8 @@ def _map_pair(ctx, ty, dk, extras):
                 problems.append("label %d: decoder accepts one-or-many %s, encoder emits %s" % (k, inner, kinds))
             g = sorted(tuple(x["guard"]) for x in ents)
             ctx.ob("R-3", "counter-signature-pairing:%s" % ty,
-                   g == [("nonempty:%s" % field, "len!=1:%s" % field), ("nonempty:%s" % field, "len==1:%s" % field)],
+                   g == sorted([tuple(codec.canon_guard(["nonempty:%s" % field, "len!=1:%s" % field])),
+                                tuple(codec.canon_guard(["nonempty:%s" % field, "len==1:%s" % field]))]),
                    "one counter-signature is written inline and recognised by its first element (bstr); several are written as an array "
                    "and recognised by theirs (array)", where=e.span, detail={"guards": g})
         else:
